@@ -93,8 +93,9 @@ def _job_worker(job):
             if job.get('rel'):
                 t3, i3 = ll2c.translate(G_BUILDS[job['rel'][0]].mod, roots=list(job['rel'][1]), prefix='R_', poison_flags=job['poison_flags'], uf_float=())
                 text2 = text2 + '\n' + t3
-            job2['text'] = job2['text'].replace('@@GEN@@', text2)
-            shift2 = text2.count('\n')
+            job2['text'] = job2['text'].replace('#define LL2C_CBMC 1', '#define LL2C_CBMC 1\n#define LL2C_NO_UF 1', 1).replace('@@GEN@@', text2)
+            shift_extra = 1
+            shift2 = text2.count('\n') + 1
             job2['lines'] = {str(int(k) + shift2): v for k, v in job2['lines'].items() if str(k).isdigit()}
             r2 = run_contract_job(job2)
             r2['translate'] = info2
